@@ -202,7 +202,7 @@ func (fs *Filespace) Writer(destPath string) (writer filesystem.Writer, err erro
 		}
 		file.time = time.Now()
 	}
-	return NewFileHandler(file), nil
+	return newFileWriteHandler(file), nil
 }
 
 // Reader return a file node reader
